@@ -168,6 +168,17 @@ Proof. vm_compute. reflexivity. Qed.
 Example return_while_receiving_stuck :
   spec_c02 true [COpenS 0 1; COpenR 0 0; HStS 0; HRecvS 0; HSendS 0 5; CRecvS 0] = [7]%nat.
 Proof. vm_compute. reflexivity. Qed.
+(* a SendMsg / CloseSend that fails on a live stream whose handler has not returned *)
+Example failed_send_on_live_stream :
+  spec_c02 false [COpenS 0 2; COpenR 0 0; HStS 0; CSendS 0 11; CSendR 0 9] = [8]%nat.
+Proof. vm_compute. reflexivity. Qed.
+Example failed_close_on_live_stream :
+  spec_c02 false [COpenS 0 2; COpenR 0 0; HStS 0; CCloseS 0; CCloseR 0 2] = [8]%nat.
+Proof. vm_compute. reflexivity. Qed.
+(* ... but a SendMsg that fails after the handler returned is legitimate, and its message is not owed to the handler *)
+Example failed_send_after_return_ok :
+  spec_c02 true [COpenS 0 2; COpenR 0 0; HStS 0; HRet 0 0; CSendS 0 11; CSendR 0 9; CRecvS 0; CRecvR 0 (RErr 1)] = [].
+Proof. vm_compute. reflexivity. Qed.
 Example hung_recv :
   spec_c02 true [COpenS 0 1; COpenR 0 0; HStS 0; HRet 0 0; CRecvS 0] = [7]%nat.
 Proof. vm_compute. reflexivity. Qed.
